@@ -162,9 +162,17 @@ def _payload_len_ok(net, text, info):
     return dec is not None and len(dec) == want
 
 
+def _parse_disabled(name):
+    """grs.py replaces parse.address (and three other entry points) by none_parser when groestlcoin_hash is not installed:
+    nothing parses there, which is the sandbox's condition, not a violation"""
+    return "address" in vars(NETS[name].parse)
+
+
 def oracle(op: str, out: str):
     a = op.split(" ")
     k = a[0]
+    if k in ("c08kind", "c08addr") and _parse_disabled(a[1]):
+        return None
     if k == "c08kind" and a[2] in STD and out.startswith("ok ") and out != "ok None":
         net, h, text = NETS[a[1]], unhx(a[3]), out[3:]
         if len(h) != (32 if a[2] in ("p2sh_wit", "p2tr") else 20):
